@@ -182,7 +182,9 @@ func TestMetadataGraphsFromText(t *testing.T) {
 		m, feats := gen.Module(rt, cfg())
 		gen.SparseMetadataIDs(rt, m)
 		split := splitNamed(m, rt)
-		x := m.TextNoisy(gen.DrawNoise(rt))
+		noise := gen.DrawNoise(rt)
+		noise.SplitAttrGroups = false // attribute groups are not C17's subject (and see KF-C01-attrgroup-redefinition)
+		x := m.TextNoisy(noise)
 		hx.Eval(1)
 		hx.Trace(test, "ll", x)
 		o := orc.ParsePrintPreserves(x, orc.Opts{OwnGenerator: true})
